@@ -128,6 +128,8 @@ def o_take(ev, st, t, site):
         return False
     if raw[0] == "refmut":
         st[raw[1]] = NONE
+    elif raw[0] == "pref":
+        ev._store(st, {"l": raw[1], "p": [{"f": f} for f in raw[2]]}, NONE)
     return _set_dest(st, t, v)
 
 
